@@ -81,6 +81,15 @@
 // the state after slot processing (RepairSyncCommittees); Counters.EpcRepairs / PlainRejected count how often
 // that mattered. With FollowCodeSyncCommittee the blocks are what the unpatched code accepts.
 //
+// # Trust and limits
+//
+// Proposers, committees and sync committees are read from the real EpochsContext and domains from the real
+// common.GetDomain: their correctness is what C07/C08/C03 establish, the generator does not second-guess
+// them (except for the sync-committee reload above). Withdrawals come from the repo's GetExpectedWithdrawals
+// as exposed in Step.ExpectedWithdrawals. A Chain is not safe for concurrent use, and chains should not be
+// run concurrently in one process at all: ztyp caches hash-tree-roots inside tree nodes without
+// synchronisation and the default subtrees of global type definitions are shared by all states.
+//
 // # Harness mode
 //
 // Mode "chainselftest" (selftest.go): op lines `chain <cfgId> <n> <seed> <slots> [balances] [policy] [mutants]`;
